@@ -233,7 +233,28 @@ def confirm(desc, ta, tb):
 def replay(world, ob_):
     if ob_.get("relational"):
         return dict(ob_.get("model") or {}, confirmed=bool(ob_.get("model")))
-    return hn.replay("C04", world, ob_)
+    # a conformance clause of a function that only some versions resolve to.  First as a difference between versions: the model's
+    # pre-state and message under the unit's version and under each older one (the property's own exclusions applied) ...
+    desc = dict(ob_.get("model") or {})
+    tb = next((t for t in ORDER if f"[{t}]" in ob_.get("unit", "")), None)
+    msg = dict(desc.get("message") or {})
+    if tb and all(isinstance(msg.get(f), int) for f in ("command", "message_type", "child_id")):
+        msg["command"], msg["message_type"], msg["child_id"] = hn.dispatched_fields(ob_["unit"], VSTR[tb], msg["command"], msg["message_type"], msg["child_id"])
+        desc["message"] = msg
+        for ta in reversed(ORDER[:ORDER.index(tb)]):
+            try:
+                found = confirm(desc, ta, tb)
+            except Exception:  # noqa: BLE001
+                found = None
+            if found:
+                return found
+    # ... then as a deviation of that version from the shared specification, under the property the clause belongs to
+    r = {"confirmed": False}
+    for p in [p for p in ob_["name"].split("/")[0].split("+") if p in ALSO_PROPERTY] or ["C04"]:
+        r = hn.replay(p, world, ob_)
+        if r.get("confirmed"):
+            break
+    return r
 
 
 def _native_history(version, steps):
